@@ -29,6 +29,28 @@ def run(res, f, tier):
     nsites = 0
     uncls = {}
     samples = []
+    # a panic site inside operator code is named after the operator cells in which it is met (node kind, operand types):
+    # `l + r` on integers is the same site whether it stands in `add`, in a `Numeric::plus` impl or in a macro expansion
+    import optable
+    try:
+        site_cells = (optable.compute(f) or {}).get("site_cells", {})
+    except Exception:
+        site_cells = {}
+
+    def site_key(p, s):
+        cells = None
+        if s["kind"] == "assert":
+            cells = site_cells.get(("assert", p, s["detail"].split(":")[0]))
+        elif s["kind"] == "call":
+            cells = site_cells.get(("call", p, s["detail"]))
+        if cells:
+            by_kind = {}
+            for kind, combo in sorted(cells):
+                by_kind.setdefault(kind, []).append(",".join(combo))
+            if len(by_kind) <= 3 and all(len(v) <= 4 for v in by_kind.values()):
+                return "C01|op|%s|%s:%s" % ("+".join("%s(%s)" % (k_, ";".join(v)) for k_, v in sorted(by_kind.items())), s["kind"], s["detail"])
+        return hazards.key("C01", p, s)
+
     for p in reach:
         b = f.bodies[p]
         for s in hazards.sites(f, b):
@@ -37,7 +59,7 @@ def run(res, f, tier):
             if s["cls"] == "unclassified":
                 uncls[s["detail"]] = uncls.get(s["detail"], 0) + 1
             if s["cls"] in ("partial", "silent"):
-                res.violation(hazards.key("C01", p, s),
+                res.violation(site_key(p, s),
                               "%s in %s at %s: %s (%s)" % (s["detail"], p, s["span"], s["reason"], s["cls"]),
                               {"function": p, "site": s})
             elif len(samples) < 12 and s["cls"] == "total" and s["kind"] in ("call", "cast") and nsites % 9 == 0:
